@@ -61,22 +61,38 @@ def nOf (n : Option Int) : Int :=
   | none => 1
   | some v => if v = 0 then 1 else v
 
+/-- steps 1–2: the operand's fields after replacement and month shift `(y, m, dd)` -/
+def shiftedDT (d : RD) (t0 : DT) (y m dd : Int) : DT :=
+  { y := y, m := m, d := dd, hh := d.hour.getD t0.hh, mm := d.minute.getD t0.mm,
+    ss := d.second.getD t0.ss, us := d.microsecond.getD t0.us }
+
+/-- step 3 as an instant (µs): the shifted datetime plus the exact duration -/
+def afterDuration (d : RD) (t0 : DT) (y m dd : Int) : Int :=
+  (shiftedDT d t0 y m dd).toMicros + duration d (decide (m > 2) && Cal.isLeap y)
+
+/-- step 4 as an instant (µs) -/
+def afterWeekday (x2 wd : Int) (n : Option Int) : Int :=
+  x2 + nthWeekdayOffset (DT.ofMicros x2).weekday wd (nOf n) * 86400000000
+
+/-- step 4: move to the nth weekday (OverflowError when that leaves years 1..9999) -/
+def weekdayStep (wd : Option (Int × Option Int)) (kind : Kind) (x2 : Int) : Py.R Temporal :=
+  match wd with
+  | none => .ok { kind := kind, t := DT.ofMicros x2 }
+  | some (w, n) =>
+    if afterWeekday x2 w n < DT.minMicros ∨ afterWeekday x2 w n > DT.maxMicros then .error .OverflowError
+    else .ok { kind := kind, t := DT.ofMicros (afterWeekday x2 w n) }
+
+/-- steps 3–4 (and the validation of steps 1–2) once the shifted date `(y, m, dd)` is known -/
+def applyShifted (d : RD) (kind : Kind) (t0 : DT) (y m dd : Int) : Py.R Temporal :=
+  if ¬ RDM.fitsCInt (shiftedDT d t0 y m dd) then .error .OverflowError   -- CPython: not a C int
+  else if ¬ (shiftedDT d t0 y m dd).Valid then .error .ValueError
+  else if afterDuration d t0 y m dd < DT.minMicros ∨ afterDuration d t0 y m dd > DT.maxMicros then
+    .error .OverflowError
+  else weekdayStep d.weekday kind (afterDuration d t0 y m dd)
+
 /-- the documented result of `x + d` -/
 def apply (d : RD) (x : Temporal) : Py.R Temporal :=
-  let kind : Kind := if x.kind = .date ∧ hasTimeInfo d = true then .naive else x.kind
   let s := monthShift (d.year.getD x.t.y) (d.month.getD x.t.m) (d.day.getD x.t.d) (12 * d.years + d.months)
-  let t1 : DT := { y := s.1, m := s.2.1, d := s.2.2,
-                   hh := d.hour.getD x.t.hh, mm := d.minute.getD x.t.mm,
-                   ss := d.second.getD x.t.ss, us := d.microsecond.getD x.t.us }
-  if ¬ RDM.fitsCInt t1 then .error .OverflowError else     -- CPython: does not fit a C int
-  if ¬ t1.Valid then .error .ValueError else
-  let x2 := t1.toMicros + duration d (decide (s.2.1 > 2) && Cal.isLeap s.1)
-  if x2 < DT.minMicros ∨ x2 > DT.maxMicros then .error .OverflowError else
-  match d.weekday with
-  | none => .ok { kind := kind, t := DT.ofMicros x2 }
-  | some (wd, n) =>
-    let x3 := x2 + nthWeekdayOffset (DT.ofMicros x2).weekday wd (nOf n) * 86400000000
-    if x3 < DT.minMicros ∨ x3 > DT.maxMicros then .error .OverflowError
-    else .ok { kind := kind, t := DT.ofMicros x3 }
+  applyShifted d (if x.kind = .date ∧ hasTimeInfo d = true then .naive else x.kind) x.t s.1 s.2.1 s.2.2
 
 end RDSpec
